@@ -301,7 +301,8 @@ def _felica(ck, rng, T, add, rb, D, F, fake_os, tt3_sony):
         tag, air, t = fresh(lite_s, F.key_block(key))
         rc = rb(16)
         real = auth_real(t, pw, rc)
-        held = (bytes(pw[:16]) if len(pw) else bytes(16)) == key
+        # DES ignores the least significant bit of every key octet (parity): keys are compared without them
+        held = bytes(x & 0xFE for x in (bytes(pw[:16]) if len(pw) else bytes(16))) == bytes(x & 0xFE for x in key)
         if len(pw) and len(pw) < 16:
             if real != "exc ValueError":
                 ck.fail("short-password-accepted", "authenticate(%r) on %s -> %s" % (bytes(pw), type(t).__name__, real),
